@@ -281,6 +281,10 @@ def run(repo, chk):
                        f'README lists {rows}; checker spec {want_rows}', 'README.rst')
         else:
             chk.ok('C11.L1', 'README operator table', 'section not found; transcribed spec used alone')
+    # operators reach the parser as the tokens the ladder expects (longest match, `!=` before the `!` sigil)
+    from . import c12
+    from ..report import Remap
+    c12.run(repo, Remap(chk, {'C12.R3': 'C11.L5', 'C12.R4': 'C11.L5'}))
     chk.exhaustive = True
     chk.count('levels', 10)
     chk.sample({'ladder': {f'ps_expr{l}': describe(funcs[f'ps_expr{l}'])['ops'] for l in (8, 7, 6, 5, 4)}})
